@@ -126,6 +126,8 @@ def cmd_regress(a):
             continue
         meta_ = json.load(open(mp))
         prop = meta_.get('regress_check') or meta_.get('property', name)
+        if getattr(a, 'only', None) and prop not in a.only.split(','):
+            continue
         d = scratch_copy(name)
         try:
             pfile = os.path.join(base, name, 'patch_rebased.diff')
@@ -165,6 +167,7 @@ def main():
     v.add_argument('--tier', default='quick')
     r = sub.add_parser('regress')
     r.add_argument('--tier', default='quick')
+    r.add_argument('--only', default=None, help='comma-separated property ids')
     a = ap.parse_args()
     {'import': cmd_import, 'verify': cmd_verify, 'regress': cmd_regress}[a.cmd](a)
 
